@@ -12,6 +12,7 @@ import (
 	"encoding/json"
 	"fmt"
 	"os"
+	"os/exec"
 	"path/filepath"
 	"sort"
 	"strconv"
@@ -267,10 +268,10 @@ func loadBehav() Behaviours {
 
 // Env abstracts how the protocol ends the caller.
 type Env struct {
-	Cwd    string            // directory the task "runs" in (temp dir); "" = process cwd
-	WfDir  string            // workflow working directory relative to which probe paths resolve
-	InProc bool              // Go-function task inside the workflow process
-	Fail   func(msg string)  // in-process failure (t.Failf); nil for commands
+	Cwd    string           // directory the task "runs" in (temp dir); "" = process cwd
+	WfDir  string           // workflow working directory relative to which probe paths resolve
+	InProc bool             // Go-function task inside the workflow process
+	Fail   func(msg string) // in-process failure (t.Failf); nil for commands
 	Cores  int
 }
 
@@ -300,6 +301,17 @@ func killGroup() {
 	}
 }
 
+// evPid is the process id events are reported under: a background helper reports under the id of the command
+// that started it, so that start and end event of one task carry the same id.
+func evPid() int {
+	if v := os.Getenv("VERIF_BGHELPER"); v != "" {
+		if n, err := strconv.Atoi(v); err == nil {
+			return n
+		}
+	}
+	return os.Getpid()
+}
+
 // Exec performs one task. It returns the exit status a command should use.
 func Exec(args []string, env *Env) int {
 	c := Parse(args)
@@ -317,7 +329,23 @@ func Exec(args []string, env *Env) int {
 		}
 	}
 	cwd, _ := os.Getwd()
-	Emit(&Event{Ev: "start", ID: c.ID, Key: key, Pid: os.Getpid(), Argv: args, Cwd: cwd, InProc: env.InProc, Cores: env.Cores})
+	helper := os.Getenv("VERIF_BGHELPER") != ""
+	if !helper {
+		Emit(&Event{Ev: "start", ID: c.ID, Key: key, Pid: evPid(), Argv: args, Cwd: cwd, InProc: env.InProc, Cores: env.Cores})
+	}
+	if opts["bgwrite"] != "" && !env.InProc && !helper {
+		// The command's work is done by a helper that outlives it (a background job, a bash process substitution):
+		// the helper inherits stdout / stderr, so whoever reads the command's output sees EOF only when it is done.
+		// The command itself returns at once with status 0; the helper writes the outputs and the end event.
+		h := exec.Command(os.Args[0], os.Args[1:]...)
+		h.Env = append(os.Environ(), fmt.Sprintf("VERIF_BGHELPER=%d", os.Getpid()))
+		h.Stdout, h.Stderr = os.Stdout, os.Stderr
+		if err := h.Start(); err != nil {
+			Emit(&Event{Ev: "end", ID: c.ID, Key: key, Pid: evPid(), Status: 6, Note: "cannot start helper: " + err.Error()})
+			return 6
+		}
+		return 0
+	}
 
 	probe := func(phase string) {
 		for k, v := range opts {
@@ -335,7 +363,7 @@ func Exec(args []string, env *Env) int {
 		if d := atoi(opts["post"], 0); d > 0 {
 			time.Sleep(time.Duration(d) * time.Millisecond)
 		}
-		Emit(&Event{Ev: "end", ID: c.ID, Key: key, Pid: os.Getpid(), Status: status, Note: note, Outs: outs, Ins: ins, InProc: env.InProc})
+		Emit(&Event{Ev: "end", ID: c.ID, Key: key, Pid: evPid(), Status: status, Note: note, Outs: outs, Ins: ins, InProc: env.InProc})
 		return status
 	}
 	fail := opts["fail"]
@@ -479,11 +507,11 @@ func Exec(args []string, env *Env) int {
 			if fail == "panic-mid-write" && env.InProc {
 				// a Go function that panics after having written half of its output
 				f.Close()
-				Emit(&Event{Ev: "end", ID: c.ID, Key: key, Pid: os.Getpid(), Status: 2, Note: fail, InProc: true})
+				Emit(&Event{Ev: "end", ID: c.ID, Key: key, Pid: evPid(), Status: 2, Note: fail, InProc: true})
 				panic("injected panic in the Go function of task " + key)
 			}
 			if fail == "sigkill-self" && !env.InProc {
-				Emit(&Event{Ev: "end", ID: c.ID, Key: key, Pid: os.Getpid(), Status: 137, Note: fail})
+				Emit(&Event{Ev: "end", ID: c.ID, Key: key, Pid: evPid(), Status: 137, Note: fail})
 				syscall.Kill(os.Getpid(), syscall.SIGKILL)
 				time.Sleep(time.Hour)
 			}
@@ -516,7 +544,7 @@ func Exec(args []string, env *Env) int {
 	switch fail {
 	case "panic-after-write":
 		if env.InProc {
-			Emit(&Event{Ev: "end", ID: c.ID, Key: key, Pid: os.Getpid(), Status: 2, Note: fail, Outs: outs, InProc: true})
+			Emit(&Event{Ev: "end", ID: c.ID, Key: key, Pid: evPid(), Status: 2, Note: fail, Outs: outs, InProc: true})
 			panic("injected panic in the Go function of task " + key)
 		}
 		return finish(3, fail, outs, insMap)
@@ -524,7 +552,7 @@ func Exec(args []string, env *Env) int {
 		return finish(3, fail, outs, insMap)
 	case "sigsegv-self":
 		if !env.InProc {
-			Emit(&Event{Ev: "end", ID: c.ID, Key: key, Pid: os.Getpid(), Status: 139, Note: fail})
+			Emit(&Event{Ev: "end", ID: c.ID, Key: key, Pid: evPid(), Status: 139, Note: fail})
 			syscall.Kill(os.Getpid(), syscall.SIGSEGV)
 			time.Sleep(time.Hour)
 		}
@@ -539,7 +567,7 @@ func Exec(args []string, env *Env) int {
 			if fail == "sigterm-shell" {
 				sig = syscall.SIGTERM
 			}
-			Emit(&Event{Ev: "end", ID: c.ID, Key: key, Pid: os.Getpid(), Status: 128 + int(sig), Note: fail, Outs: outs})
+			Emit(&Event{Ev: "end", ID: c.ID, Key: key, Pid: evPid(), Status: 128 + int(sig), Note: fail, Outs: outs})
 			syscall.Kill(os.Getppid(), sig)
 			time.Sleep(50 * time.Millisecond)
 			return 0
